@@ -195,26 +195,23 @@ pub fn run_pairs(seed: u64, tier: &str, filter: &str, count: Option<u64>, out: &
                 Some(s) => s,
                 None => continue,
             };
-            match r.below(3) {
-                0 if b.float_stack.size() > 0 => {
-                    let pos = r.below(b.float_stack.size().min(4) as u64) as usize;
-                    if let Some(x) = b.float_stack.get_mut(pos) {
+            // the changed operand: uniformly one of the slots near the tops of the INTEGER, FLOAT and BOOLEAN stacks
+            let ni = b.int_stack.size().min(4);
+            let nf = b.float_stack.size().min(4);
+            let nb = b.bool_stack.size().min(1);
+            let tot = ni + nf + nb;
+            if tot > 0 {
+                let k = r.below(tot as u64) as usize;
+                if k < nf {
+                    if let Some(x) = b.float_stack.get_mut(k) {
                         *x = if x.is_finite() { *x + *r.pick(&[0.25f32, 0.5, 1.0, 1.5707964, -0.75]) } else { 1.0 };
                     }
-                }
-                1 if b.bool_stack.size() > 0 => {
-                    if let Some(x) = b.bool_stack.get_mut(0) {
-                        *x = !*x;
+                } else if k < nf + ni {
+                    if let Some(x) = b.int_stack.get_mut(k - nf) {
+                        *x = x.wrapping_add(*r.pick(&[1i32, -1, 2, 3])).min(300);
                     }
-                }
-                _ => {
-                    let ni = b.int_stack.size();
-                    if ni > 0 {
-                        let pos = r.below(ni.min(4) as u64) as usize;
-                        if let Some(x) = b.int_stack.get_mut(pos) {
-                            *x = x.wrapping_add(*r.pick(&[1i32, -1, 2, 3])).min(300);
-                        }
-                    }
+                } else if let Some(x) = b.bool_stack.get_mut(0) {
+                    *x = !*x;
                 }
             }
             out(observe_exec(&mut iset, name, st));
@@ -289,6 +286,32 @@ pub fn run_codeops(seed: u64, tier: &str, filter: &str, out: &mut dyn FnMut(Stri
                 };
                 st.int_stack.push(i);
             }
+            if name == "CODE.SUBST" && r.chance(1, 3) {
+                // self-similar operands: the substitute S occurs inside the pattern P, and the target holds P wrapped in
+                // the shape of P itself (P with S replaced by P). Exactly the inner P is a structural match; the
+                // wrapper only LOOKS like the pattern after the replacement and must not be replaced again.
+                let sv = crate::gen::gen_atom(&mut r, &inert);
+                let mut shape = vec![];
+                for _ in 0..r.below(3) {
+                    shape.push(crate::gen::gen_atom(&mut r, &inert));
+                }
+                let at = r.below(shape.len() as u64 + 1) as usize;
+                let mut pv = shape.clone();
+                pv.insert(at, sv.clone());
+                let pat = Item::list(pv);
+                let mut lv = shape.clone();
+                lv.insert(at, pat.clone());
+                let wrapper = Item::list(lv);
+                let target = match r.below(3) {
+                    0 => wrapper,
+                    1 => Item::list(vec![wrapper, Item::int(5)]),
+                    _ => Item::list(vec![Item::int(7), Item::list(vec![wrapper.clone(), pat.clone()])]),
+                };
+                st.code_stack.flush();
+                st.code_stack.push(pat);
+                st.code_stack.push(sv);
+                st.code_stack.push(target);
+            }
             out(observe_exec(&mut iset, name, st));
         }
     }
@@ -315,13 +338,18 @@ pub fn run_vecgrid(seed: u64, tier: &str, out: &mut dyn FnMut(String)) {
                     st.int_stack.push(77);
                     st.int_stack.push(off);
                     match &name[..4] {
+                        // equal lengths: one case in three has EQUAL vectors (the second pushed as a copy of the first)
                         "BOOL" => {
-                            st.bool_vector_stack.push(BoolVector::new((0..la).map(|_| r.chance(1, 2)).collect()));
-                            st.bool_vector_stack.push(BoolVector::new((0..lb).map(|_| r.chance(1, 2)).collect()));
+                            let a: Vec<bool> = (0..la).map(|_| r.chance(1, 2)).collect();
+                            let b: Vec<bool> = if la == lb && r.chance(1, 3) { a.clone() } else { (0..lb).map(|_| r.chance(1, 2)).collect() };
+                            st.bool_vector_stack.push(BoolVector::new(a));
+                            st.bool_vector_stack.push(BoolVector::new(b));
                         }
                         "INTV" => {
-                            st.int_vector_stack.push(IntVector::new((0..la).map(|_| gen_int(&mut r)).collect()));
-                            st.int_vector_stack.push(IntVector::new((0..lb).map(|_| gen_int(&mut r)).collect()));
+                            let a: Vec<i32> = (0..la).map(|_| gen_int(&mut r)).collect();
+                            let b: Vec<i32> = if la == lb && r.chance(1, 3) { a.clone() } else { (0..lb).map(|_| gen_int(&mut r)).collect() };
+                            st.int_vector_stack.push(IntVector::new(a));
+                            st.int_vector_stack.push(IntVector::new(b));
                         }
                         _ => {
                             st.float_vector_stack.push(FloatVector::new((0..la).map(|_| gen_float(&mut r)).collect()));
@@ -451,6 +479,13 @@ pub fn run_starve(seed: u64, tier: &str, out: &mut dyn FnMut(String)) {
                     st.graph_stack.push(crate::stategen::gen_graph(&mut r));
                     st.graph_stack.push(crate::stategen::gen_graph(&mut r));
                 }
+                // a missing operand must change no binding either: half of the states have the NAME on top already bound
+                // (as after NAME.QUOTE of a defined name), so that a DEFINE that gives up half-way has something to spoil
+                if case % 2 == 0 {
+                    if let Some(nm) = st.name_stack.get(0).cloned() {
+                        st.name_bindings.insert(nm, pushr::push::item::Item::int(41));
+                    }
+                }
                 truncate_stack(&mut st, which, keep);
                 if let Some((w2, k2)) = second {
                     truncate_stack(&mut st, w2, k2);
@@ -497,5 +532,66 @@ pub fn run_cmd(out: &mut dyn FnMut(String)) {
             st.int_stack.push(i);
         }
         out(observe_exec(&mut iset, "EXEC.CMD", st));
+    }
+}
+
+/// `unreg` scenario: the instruction functions the crate ships without registering them (`int_vector_multiply`,
+/// `int_vector_divide`: their two lines in `load_vector_instructions` are commented out), registered here with the
+/// public `InstructionSet::add` under their README names and driven by NAME on the length-pair x offset grid with
+/// zeros among the divisors, plus generated states.
+pub fn run_unreg(seed: u64, tier: &str, out: &mut dyn FnMut(String)) {
+    use crate::gen::gen_int;
+    use pushr::push::instructions::Instruction;
+    use pushr::push::vector::{int_vector_divide, int_vector_multiply, IntVector};
+    let mut iset = make_iset(false);
+    iset.add("INTVECTOR.*".to_string(), Instruction::new(int_vector_multiply));
+    iset.add("INTVECTOR./".to_string(), Instruction::new(int_vector_divide));
+    let observe = |iset: &mut InstructionSet, name: &str, mut s: PushState| -> String {
+        let pre = enc_state(&s);
+        let nid = next_node_id();
+        // exec_by_name catches a panic of the instruction itself and reports it through its result
+        if exec_by_name(iset, name, &mut s) {
+            format!("( unreg {} {} {} {} )", name, pre, enc_state(&s), nid)
+        } else {
+            format!("( unreg {} {} PANIC {} )", name, pre, nid)
+        }
+    };
+    let maxlen = if tier == "thorough" { 7 } else { 4 };
+    let mut case = 0u64;
+    for name in ["INTVECTOR.*", "INTVECTOR./"].iter() {
+        for la in 0..=maxlen {
+            for lb in 0..=maxlen {
+                let mut offs: Vec<i32> = (-(maxlen as i32) - 1..=(maxlen as i32) + 1).collect();
+                offs.extend_from_slice(&[i32::MIN, i32::MAX]);
+                for off in offs {
+                    for zeros in 0..3 {
+                        case += 1;
+                        let mut r = Rng::for_case(seed, "unreg", case);
+                        let mut st = PushState::new();
+                        st.int_stack.push(77);
+                        st.int_stack.push(off);
+                        st.int_vector_stack.push(IntVector::new((0..la).map(|_| gen_int(&mut r)).collect()));
+                        // the top vector (the divisors): no zero, one zero at a random place, or mostly zeros
+                        let top: Vec<i32> = (0..lb)
+                            .map(|_| match zeros {
+                                0 => { let v = gen_int(&mut r); if v == 0 { 3 } else { v } }
+                                1 => if r.chance(1, 3) { 0 } else { 1 + r.below(9) as i32 },
+                                _ => if r.chance(2, 3) { 0 } else { -1 },
+                            })
+                            .collect();
+                        st.int_vector_stack.push(IntVector::new(top));
+                        out(format!("#c unreg {} la={} lb={} off={}", name, la, lb, off));
+                        out(observe(&mut iset, name, st));
+                    }
+                }
+            }
+        }
+        let names = instruction_names();
+        for k in 0..(if tier == "thorough" { 2000 } else { 200 }) {
+            let mut r = Rng::for_case(seed, &format!("unreg:{}", name), k);
+            let rich = r.chance(1, 2);
+            let st = gen_state(&mut r, &GenOpts { instrs: &names, rich, item_depth: 2 });
+            out(observe(&mut iset, name, st));
+        }
     }
 }
